@@ -395,6 +395,11 @@ func runC16(c *ctx, r *Report) error {
 					}
 					b.add(fmt.Sprintf("indicator %s %d %d %s", ln, col, sw, tb), hx(ind), Case{Op: "indicator", Input: map[string]string{"line": strconv.Quote(truncate(shown, 200)), "col": strconv.Itoa(col)}})
 					r.hist("snippet:indicator-modelled")
+					// everything PrettyPrint wrote for this diagnostic against AL.Print.prettyPrint (op `pretty`; AL.C16P)
+					if len(src) < 2000 && line >= 0 {
+						b.add(fmt.Sprintf("pretty 0 %s %s %d %d %s %s %d %s", hx(src), hx("f"), line, col, hx("m"), hx("k"), sw, tb), hx(perByteValid(out.String())), mk("pretty"))
+						r.hist("pretty:with-snippet")
+					}
 				}
 				if tf != nil && !strings.HasPrefix(tf.Snippet, shown) {
 					r.finding("template-snippet", "GetTemplateFields snippet differs from the line PrettyPrint shows", mk(tf.Snippet))
@@ -424,6 +429,16 @@ func runC16(c *ctx, r *Report) error {
 		}
 		if len(src) < 2000 && line >= 0 && col >= 0 {
 			b.add(fmt.Sprintf("snippet %s %d %d", hx(src), line, col), impl, mk(""))
+		}
+		if len(src) < 2000 && line >= 0 && col >= 0 {
+			// without a snippet no width is consulted; -oneline drops the source altogether
+			if impl == "none" {
+				b.add(fmt.Sprintf("pretty 0 %s %s %d %d %s %s", hx(src), hx("f"), line, col, hx("m"), hx("k")), hx(perByteValid(out.String())), mk("pretty"))
+				r.hist("pretty:header-only")
+			}
+			var one bytes.Buffer
+			e.PrettyPrint(&one, nil)
+			b.add(fmt.Sprintf("pretty 1 %s %s %d %d %s %s", hx(src), hx("f"), line, col, hx("m"), hx("k")), hx(one.String()), mk("pretty -oneline"))
 		}
 	}
 	// (4) `-format '{{json .}}'`: random lists of diagnostics (messages / file names / kinds over quotes, backslashes, every
@@ -568,6 +583,22 @@ func runC16(c *ctx, r *Report) error {
 	r.sample(map[string]string{"op": "lint-render", "payload": `a\nb`, "sites": "25 echo sites of the template"})
 	_, err = b.flush(c, r)
 	return err
+}
+
+// perByteValid: every byte that is not part of a valid UTF-8 sequence becomes U+FFFD (the model's reading of a source line)
+func perByteValid(s string) string {
+	var sb strings.Builder
+	for len(s) > 0 {
+		r, size := utf8.DecodeRuneInString(s)
+		if r == utf8.RuneError && size <= 1 {
+			sb.WriteString("\uFFFD")
+			s = s[1:]
+			continue
+		}
+		sb.WriteString(s[:size])
+		s = s[size:]
+	}
+	return sb.String()
 }
 
 func truncate(s string, n int) string {
